@@ -134,6 +134,16 @@ struct Counters {
 fn explore_history<S: StorageData>(report: &Report, c: &Counters, db: &mut DbImpl<S>, spec: &GraphSpec, backend: &str, graphs: Option<&DistinctCounter>, results: Option<&DistinctCounter>) -> Option<RefGraph> {
     let g = match build(db, spec) {
         Ok(g) => g,
+        Err(e) if e.starts_with(LINKS_PREFIX) => {
+            // the links every traversal starts from are wrong: reported as a violation of C14, the database is not searched
+            c.histories.fetch_add(1, Ordering::Relaxed);
+            report.violation(
+                "kind=all|origin=node-or-edge|clause=graph-links-inconsistent",
+                &e,
+                json!({"check": "C14", "backend": backend, "graph": spec.to_json(), "clause": "graph-links-inconsistent", "expected": "every node's first outgoing/incoming edge is one of its edges (0 if none), every edge joins the nodes it was inserted between", "observed": e}),
+            );
+            return None;
+        }
         Err(e) => {
             if c.build_failures.fetch_add(1, Ordering::SeqCst) == 0 {
                 eprintln!("build failed for {}: {e}", spec.to_json());
@@ -182,9 +192,28 @@ pub fn replay(args: &Args, path: &str) -> i32 {
     let report = Report::new(args, "model_checking");
     let r = load_replay(path);
     let spec = GraphSpec::from_json(&r["graph"]).unwrap_or_else(|e| engine::machinery_failure(&e));
-    let kind = KINDS.into_iter().find(|k| Some(k.name()) == r["kind"].as_str()).unwrap_or_else(|| engine::machinery_failure("replay: kind"));
-    let origin = r["origin"].as_i64().unwrap_or_else(|| engine::machinery_failure("replay: origin"));
-    let (db, g) = build_memory(&spec).unwrap_or_else(|e| engine::machinery_failure(&e));
+    let kind = KINDS.into_iter().find(|k| Some(k.name()) == r["kind"].as_str()).unwrap_or(Kind::Bfs);
+    let origin = r["origin"].as_i64().unwrap_or(0);
+    let (db, g) = match build_memory(&spec) {
+        Ok(x) => x,
+        Err(e) if e.starts_with(LINKS_PREFIX) => {
+            println!("replay C14: history {}", spec.to_json()["ops"]);
+            println!("clause violated: graph-links-inconsistent\nexpected: every node's first outgoing/incoming edge is one of its edges (0 if none)\nobserved: {e}");
+            report.violation("kind=all|origin=node-or-edge|clause=graph-links-inconsistent", &e, r.clone());
+            report.set("evaluations", json!(1));
+            report.set("distinct_nontrivial", json!(0));
+            report.set("rule", json!("replay of one stored case"));
+            return finish_replay(&report);
+        }
+        Err(e) => engine::machinery_failure(&e),
+    };
+    if r["clause"].as_str() == Some("graph-links-inconsistent") {
+        println!("replay C14: history {}: the links of graph {} are consistent; all clauses hold", spec.to_json()["ops"], g.listing());
+        report.set("evaluations", json!(1));
+        report.set("distinct_nontrivial", json!(0));
+        report.set("rule", json!("replay of one stored case"));
+        return finish_replay(&report);
+    }
     println!("replay C14: graph {} kind {} origin {origin}", g.listing(), kind.name());
     let (f, _) = check_case(&db, &g, kind, origin);
     match f {
@@ -251,8 +280,8 @@ pub fn run(args: &Args) -> i32 {
     let reuse_histories = AtomicU64::new(0);
     for n in 1..=3u8 {
         let depth = env(&format!("VERIF_C14_REUSE_DEPTH{n}"), match n {
-            1 => args.tier.pick(5, 6),
-            2 => args.tier.pick(4, 5),
+            1 => args.tier.pick(6, 7),
+            2 => args.tier.pick(5, 6),
             _ => args.tier.pick(4, 5),
         });
         let alpha = reuse_alphabet(n, depth.saturating_sub(1) as u8);
